@@ -65,7 +65,12 @@ class CGenerator:
         return arrref + "[" + self.visit(n.subscript) + "]"
 
     def visit_StructRef(self, n: c_ast.StructRef) -> str:
-        sref = self._parenthesize_unless_simple(n.name)
+        # A constant is not simple here: `1.x` would be read back as the
+        # floating constant `1.` followed by `x`.
+        sref = self._parenthesize_if(
+            n.name,
+            lambda d: isinstance(d, c_ast.Constant) or not self._is_simple_node(d),
+        )
         return sref + n.type + self.visit(n.field)
 
     def visit_FuncCall(self, n: c_ast.FuncCall) -> str:
